@@ -6,3 +6,4 @@ import Proofs.C14
 #print axioms TW.C14.fresh_ids
 #print axioms TW.C14.initial_nonempty
 #print axioms TW.C14.no_expand_no_growth
+#print axioms TW.C14.failed_group_appended_only_without_overlap
